@@ -135,7 +135,16 @@ def build_cases(graphs, tier, rng, workdir):
               "fragment E on Empty { ...E }\nquery Q { empty { ...E } }",
               "fragment A on Obj { ...A }\nquery Q { obj { ...A } }",
               "fragment A on Obj { next { ...A } }\nquery Q { obj { ...A } }",
-              "query Q { obj { ...Q } }", "query Q { ...Q }"):
+              "query Q { obj { ...Q } }", "query Q { ...Q }",
+              # abstract type conditions met with odd unions / interfaces (overlap computations must terminate)
+              "query Q { selfish { __typename ... on Iface { __typename id } } }",
+              "query Q { selfish { __typename ... on Uni { __typename } } }",
+              "query Q { selfish { __typename ... on Empty { x } } }",
+              "query Q { iface { __typename ... on Selfish { __typename } } }",
+              "query Q { uni { __typename ... on Selfish { __typename } } }",
+              "query Q { empty { __typename ... on Selfish { __typename } } }",
+              "fragment S on Selfish { __typename }\nquery Q { iface { __typename ...S } }",
+              "fragment I on Iface { __typename id }\nquery Q { selfish { __typename ...I } }"):
         cases.append({"class": "odd-abstract", "detail": {"query": q}, "schema_path": schema_path, "query": q + "\n"})
     # broken texts: prefixes of a valid document / schema, garbage
     good = frag_doc({"n": 2, "edges": [[1, 2]], "cyclic": False}, "iface", "field", True)
@@ -148,6 +157,22 @@ def build_cases(graphs, tier, rng, workdir):
         sp = os.path.join(workdir, "trunc_%d.graphql" % k)
         vlib.write_if_changed(sp, stext[:k])
         cases.append({"class": "truncated-schema", "detail": {"bytes": k}, "schema_path": sp, "query": "query Q { obj { id } }\n"})
+    # long error texts with multi-byte characters at every byte offset (file route and text route): whatever
+    # reports the error must cope with it
+    for k in range(4):
+        for body, cls in (('"' * 3 + "a" * k + "é" * 300 + '"' * 3 + "\nquery Q { obj { id } }\n", "description"),
+                          ("query Q { obj(x: \"" + "a" * k + "é✓" * 150 + ") { id } }\n", "unterminated-string"),
+                          ("query Q { " + "a" * k + "é" * 300 + " }\n", "bad-name")):
+            qp = os.path.join(workdir, "long_%s_%d.graphql" % (cls, k))
+            vlib.write_if_changed(qp, body)
+            cases.append({"class": "long-nonascii-error", "detail": {"shape": cls, "offset": k, "route": "file"},
+                          "schema_path": schema_path, "query": body, "query_path": qp})
+            cases.append({"class": "long-nonascii-error", "detail": {"shape": cls, "offset": k, "route": "text"},
+                          "schema_path": schema_path, "query": body})
+        sp = os.path.join(workdir, "long_schema_%d.graphql" % k)
+        vlib.write_if_changed(sp, "type Query { a: Int }\n" + '"' * 3 + "a" * k + "é" * 300 + '"' * 3 + "\n@@@\n")
+        cases.append({"class": "long-nonascii-error", "detail": {"shape": "schema", "offset": k, "route": "file"},
+                      "schema_path": sp, "query": "query Q { a }\n"})
     import render
     js = render.introspection_json({"types": [{"kind": "OBJECT", "name": "Query", "fields": [
         {"name": "a", "type": {"q": [], "base": "Int"}, "args": [], "dep": None}], "interfaces": []}],
@@ -165,6 +190,9 @@ def build_cases(graphs, tier, rng, workdir):
 
 def run_case(c):
     job = {"id": 0, "schema_path": c["schema_path"], "query": c["query"], "options": {"mode": "cli"}, "want_tokens": False}
+    if c.get("query_path"):
+        job = dict(job, query_path=c["query_path"])
+        del job["query"]
     return vlib.gqlv_isolated("gen", job, timeout=20)
 
 
